@@ -14,6 +14,7 @@ import Proofs.Lemmas.Affinity
 import Proofs.Lemmas.Bounds
 import Proofs.Lemmas.AffinityExtent
 import Proofs.C11
+import Proofs.Lemmas.AffinityCall
 namespace SE.Proofs.C06
 open SE SE.Affinity
 variable {σ : Type}
@@ -330,12 +331,13 @@ theorem C06_model_holds (G : Geos σ) (hG : Sound G) (g1 g2 : Geom) (tb fb : Rat
       decide ((timeBounds G p1).2 ≤ (timeBounds G p2).1 ∨ (timeBounds G p2).2 ≤ (timeBounds G p1).1)⟩).all
       = true := by
   obtain ⟨r0, r1⟩ := C06_range G hG.sane g1 g2 tb fb a12 w1 w2 e12
+  obtain ⟨q0, q1⟩ := C06_range G hG.sane g2 g1 tb fb a21 w2 w1 e21
   have hs : a12 = a21 := by
     rw [C06_symm G hG g1 g2 tb fb, e21] at e12
     cases e12; rfl
   simp only [ObsVerdict.all, judgeObs, Bool.and_eq_true, Bool.or_eq_true, Bool.not_eq_true',
     decide_eq_true_eq, Bool.and_eq_false_imp, decide_eq_false_iff_not]
-  refine ⟨⟨⟨⟨r0, r1⟩, hs⟩, ?_⟩, ?_⟩
+  refine ⟨⟨⟨⟨⟨⟨r0, r1⟩, q0⟩, q1⟩, hs⟩, ?_⟩, ?_⟩
   · by_cases hsame : g1 = g2
     · by_cases hext : 0 < extent G p1
       · right
@@ -918,5 +920,137 @@ example : closedArea (.polygon [[(0, 0), (2, 0), (2, 3), (0, 3), (0, 0)]]) = som
 example : closedArea (.polygon [[(0, 0), (2, 0), (2, 3), (0, 3)], [(1/2, 1), (1/2, 2), (3/2, 2), (3/2, 1), (1/2, 1)]]) = some 5 := by
   decide +kernel
 example : closedArea (.boundingBox 1 2 3 5) = some 6 := by decide +kernel
+
+/-! ### follow-up 3: histories (sequences of calls in one process) and the binding of arguments -/
+
+/-- **Histories.**  Whatever state an implementation keeps between calls (`τ` is arbitrary: module-level
+    caches, values memoised on the argument objects), it returns the model's affinity at every step of every
+    sequence of calls in one process iff no state reachable by some sequence of calls changes the answer of
+    any single call.  This is what the operation `affinity_history` of the check decides by running
+    sequences: each step is judged by `callModel` on the content the objects carry at that step. -/
+theorem C06_history {τ : Type} (G : Geos σ) (step : τ → Call → τ × Except Err Rat) (s0 : τ) :
+    SE.History.HistoryFree step s0 (callModel G) ↔
+      ∀ calls : List Call, SE.History.runS step s0 calls = calls.map (callModel G) :=
+  SE.History.historyFree_iff step s0 (callModel G)
+
+/-- a cache keyed by anything that determines the affinity is invisible in every history … -/
+theorem C06_history_keyed_cache {κ : Type} [DecidableEq κ] (G : Geos σ) (key : Call → κ)
+    (hkey : ∀ x y, key x = key y → callModel G x = callModel G y) :
+    SE.History.HistoryFree (keyedCacheStep key (callModel G)) [] (callModel G) :=
+  keyedCache_historyFree key (callModel G) hkey
+
+/-- … in particular a cache keyed by the complete call (both geometries and both buffers) -/
+theorem C06_history_full_key_cache (G : Geos σ) (calls : List Call) :
+    SE.History.runS (keyedCacheStep (fun c : Call => c) (callModel G)) [] calls = calls.map (callModel G) :=
+  (C06_history G _ []).mp (C06_history_keyed_cache G (fun c => c) (fun _ _ h => by rw [h])) calls
+
+/-- a cache keyed by the geometries alone (the buffers forgotten) is *not* history free: two time stamps one
+    second apart, first with a buffer of one second (affinity 1/3), then with a quarter of a second
+    (disjoint: 0) -/
+theorem C06_history_partial_key_cache_not_free :
+    ¬ SE.History.HistoryFree (keyedCacheStep (fun c : Call => (c.1, c.2.1)) (callModel unitGeos)) []
+        (callModel unitGeos) := by
+  intro h
+  have := (C06_history unitGeos _ []).mp h
+    [(.timeStamp 1, .timeStamp 2, 1, 1), (.timeStamp 1, .timeStamp 2, 1/4, 1)]
+  revert this
+  decide +kernel
+
+/-- a shape memoised on a geometry object is invisible as long as every change of the object's coordinates
+    drops it, from any state whatsoever … -/
+theorem C06_history_memo_dropped (G : Geos σ) (s0 : Cell × Cell) :
+    SE.History.HistoryFree (memoStep false G) s0 (callModel G) := by
+  intro s _ c
+  simp [memoStep, Cell.update, Cell.convert, callModel]
+
+/-- … and is *not* when `model_copy(update=…)` / assignment carries it over (the seeded change C06-7): two
+    boxes with IoU 1/7, then the second box moved ten seconds later on the same objects — the affinity is
+    still 1/7 instead of 0 -/
+theorem C06_history_memo_kept_not_free :
+    ¬ SE.History.HistoryFree (memoStep true boxGeos) (⟨default, none⟩, ⟨default, none⟩) (callModel boxGeos) := by
+  intro h
+  have := (C06_history boxGeos _ _).mp h
+    [(.boundingBox 1 1000 2 3000, .boundingBox (3/2) 2000 (5/2) 4000, 0, 0),
+     (.boundingBox 1 1000 2 3000, .boundingBox (23/2) 2000 (25/2) 4000, 0, 0)]
+  revert this
+  decide +kernel
+
+example : SE.History.runS (memoStep true boxGeos) (⟨default, none⟩, ⟨default, none⟩)
+    [(.boundingBox 1 1000 2 3000, .boundingBox (3/2) 2000 (5/2) 4000, 0, 0),
+     (.boundingBox 1 1000 2 3000, .boundingBox (23/2) 2000 (25/2) 4000, 0, 0)] = [.ok (1/7), .ok (1/7)] := by
+  decide +kernel
+example : [(Geom.boundingBox 1 1000 2 3000, Geom.boundingBox (3/2) 2000 (5/2) 4000, (0 : Rat), (0 : Rat)),
+     (.boundingBox 1 1000 2 3000, .boundingBox (23/2) 2000 (25/2) 4000, 0, 0)].map (callModel boxGeos)
+      = [.ok (1/7), .ok 0] := by
+  decide +kernel
+
+-- one way of passing the arguments: the optional tail of the signature binds (`key`), the rest is computation
+set_option hygiene false in
+local macro "bind_case " key:ident ", " pos:term ", " kw:term : tactic =>
+  `(tactic| (obtain ⟨as, has⟩ := $key $pos $kw
+             simp only [bindCall, bindArgs, List.length_cons, List.length_nil, h0, h2, h3, h4, if_false]
+             simp [bindFrom, bindOne, has, toCall, List.lookup]))
+
+/-- **Binding of arguments.**  For every signature the documented interface admits (`WellFormedSig`: the check
+    re-extracts the signature of the imported function on every run and discharges this hypothesis by
+    `decide`), every way of passing the four arguments — all positional in the documented order, the buffers
+    by keyword in either order, the time buffer positional and the frequency buffer by keyword, everything by
+    keyword — makes the same call, and an omitted buffer is the declared default of that parameter. -/
+theorem C06_bind_wellformed (sig : Sig) (h : WellFormedSig sig = true) :
+    ∃ dt df, sigDefault sig "time_buffer" = some dt ∧ sigDefault sig "freq_buffer" = some df ∧ 0 ≤ dt ∧ 0 ≤ df ∧
+    ∀ g1 g2 tb fb,
+      bindCall sig [.geom g1, .geom g2, .num tb, .num fb] [] = .ok (g1, g2, tb, fb) ∧
+      bindCall sig [.geom g1, .geom g2] [("time_buffer", .num tb), ("freq_buffer", .num fb)] = .ok (g1, g2, tb, fb) ∧
+      bindCall sig [.geom g1, .geom g2] [("freq_buffer", .num fb), ("time_buffer", .num tb)] = .ok (g1, g2, tb, fb) ∧
+      bindCall sig [.geom g1, .geom g2, .num tb] [("freq_buffer", .num fb)] = .ok (g1, g2, tb, fb) ∧
+      bindCall sig [] [("geometry2", .geom g2), ("freq_buffer", .num fb), ("geometry1", .geom g1),
+        ("time_buffer", .num tb)] = .ok (g1, g2, tb, fb) ∧
+      bindCall sig [.geom g1, .geom g2] [] = .ok (g1, g2, dt, df) ∧
+      bindCall sig [.geom g1, .geom g2] [("time_buffer", .num tb)] = .ok (g1, g2, tb, df) ∧
+      bindCall sig [.geom g1, .geom g2] [("freq_buffer", .num fb)] = .ok (g1, g2, dt, fb) ∧
+      bindCall sig [.geom g1, .geom g2, .num tb] [] = .ok (g1, g2, tb, df) := by
+  obtain ⟨dt, df, rest, rfl, hdt, hdf, hrest⟩ := wellFormedSig_shape sig h
+  refine ⟨dt, df, by simp [sigDefault, List.lookup], by simp [sigDefault, List.lookup], hdt, hdf, ?_⟩
+  intro g1 g2 tb fb
+  have key : ∀ (pos : List Arg) (kw : List (String × Arg)), ∃ as, bindFrom pos kw 4 rest = .ok as :=
+    fun pos kw => bindFrom_optional pos kw rest hrest 4
+  have h0 : ¬ (rest.length + 1 + 1 + 1 + 1 < 0) := by omega
+  have h2 : ¬ (rest.length + 1 + 1 + 1 + 1 < 2) := by omega
+  have h3 : ¬ (rest.length + 1 + 1 + 1 + 1 < 3) := by omega
+  have h4 : ¬ (rest.length + 1 + 1 + 1 + 1 < 4) := by omega
+  refine ⟨?_, ?_, ?_, ?_, ?_, ?_, ?_, ?_, ?_⟩
+  · bind_case key, [.geom g1, .geom g2, .num tb, .num fb], []
+  · bind_case key, [.geom g1, .geom g2], [("time_buffer", .num tb), ("freq_buffer", .num fb)]
+  · bind_case key, [.geom g1, .geom g2], [("freq_buffer", .num fb), ("time_buffer", .num tb)]
+  · bind_case key, [.geom g1, .geom g2, .num tb], [("freq_buffer", .num fb)]
+  · bind_case key, [], [("geometry2", .geom g2), ("freq_buffer", .num fb), ("geometry1", .geom g1), ("time_buffer", .num tb)]
+  · bind_case key, [.geom g1, .geom g2], []
+  · bind_case key, [.geom g1, .geom g2], [("time_buffer", .num tb)]
+  · bind_case key, [.geom g1, .geom g2], [("freq_buffer", .num fb)]
+  · bind_case key, [.geom g1, .geom g2, .num tb], []
+
+/-- the signature of the pinned tree is well formed; one with the two buffers declared in the other order, or
+    without a default for a buffer, is not -/
+theorem C06_pinned_sig_wellformed :
+    WellFormedSig pinnedSig = true ∧
+    WellFormedSig [("geometry1", none), ("geometry2", none), ("freq_buffer", some (.num 100)),
+      ("time_buffer", some (.num (1/100)))] = false ∧
+    WellFormedSig [("geometry1", none), ("geometry2", none), ("time_buffer", none),
+      ("freq_buffer", some (.num 100))] = false := by
+  decide +kernel
+
+-- the swapped signature binds a positional call to the other call: the frequency buffer lands in the time buffer
+example : bindCall [("geometry1", none), ("geometry2", none), ("freq_buffer", some (.num 100)),
+      ("time_buffer", some (.num (1/100)))] [.geom (.timeStamp 1), .geom (.timeStamp 2), .num (1/4), .num 2] []
+    = .ok (.timeStamp 1, .timeStamp 2, 2, 1/4) := by
+  decide +kernel
+-- too many positional arguments, an unknown keyword, a parameter given twice: `TypeError`
+example : bindCall pinnedSig [.geom (.timeStamp 1), .geom (.timeStamp 2), .num 1, .num 1, .num 1] [] = .error .type := by
+  decide +kernel
+example : bindCall pinnedSig [.geom (.timeStamp 1), .geom (.timeStamp 2)] [("buffer", .num 1)] = .error .type := by
+  decide +kernel
+example : bindCall pinnedSig [.geom (.timeStamp 1), .geom (.timeStamp 2), .num 1] [("time_buffer", .num 1)] = .error .type := by
+  decide +kernel
+example : bindCall pinnedSig [.geom (.timeStamp 1)] [] = .error .type := by decide +kernel
 
 end SE.Proofs.C06
